@@ -112,6 +112,9 @@ def function_chunks(files, names):
                 if cur is not None:
                     res.setdefault(cur, []).append("@@ " + fn)
             if cur is not None:
+                # the capsule-destructor index is a library-wide numbering (like a line
+                # number); a shift caused by another function is not a change of this wrapper
+                ln = re.sub(r"idtor(\s*)=(\s*)\d+", r"idtor\1=\2#", ln)
                 res[cur].append(ln)
                 s_ = ln.strip().lower()
                 if ln == "}" or s_.startswith("end function") or s_.startswith("end subroutine"):
@@ -242,11 +245,17 @@ def _job(job):
         rb, rf = _run(meta.dump(doc), job["argv"], name), _run(meta.dump(Vf), job["argv"], name)
         out["runs"] += 2
         if rb.status != "ok" or rf.status != "ok":
-            if rb.status == "ok":
-                fail("a2:variant-fails:" + job["key"], "the variant stops: " + rf.describe())
+            # the setting is not applicable to this function (e.g. no buffer function for a
+            # std::vector argument): nothing to say about siblings
+            out["skipped"] = 1
             return out
         fb, ff = files_of(rb), files_of(rf)
-        others = sorted(set(decl_name(meta.get_node(doc, p)["decl"]) for p in functions_under(doc, None)) - {fname})
+        classes = set(decl_name(n["decl"]) for _p, n, _l in meta.walk_decls(doc) if meta.decl_kind(n) == "class")
+        ident = re.compile(r"^[A-Za-z_][A-Za-z0-9_]*$")
+        if not ident.match(fname) or fname in classes:
+            return out   # constructors / destructors share the class name: pieces cannot be told apart by name
+        others = sorted(n for n in set(decl_name(meta.get_node(doc, p)["decl"]) for p in functions_under(doc, None)) - {fname}
+                        if ident.match(n) and n not in classes)
         cb, cf = function_chunks(fb, others), function_chunks(ff, others)
         for g in others:
             if cb.get(g) != cf.get(g):
